@@ -52,6 +52,21 @@ def ill_conditioned(recipe, U, env, lt=None):
             return True
         if hi.cond or lo.cond:
             return False
+        if r[0] in ("atan", "asin", "acos") and isinstance(r[1], tuple):
+            # exactly on a branch cut (atan: imaginary axis beyond +-i; asin/acos: real axis beyond +-1) the side is
+            # decided by the sign of a zero, which differs between C99/cmath and the reference arithmetic
+            try:
+                arg = L.interp(r[1], U, M.Ctx(env))
+                for z in np.asarray(arg.a, dtype=object).reshape(-1):
+                    z = mpmath.mpmathify(const_of(z))
+                    re, im = mpmath.re(z), mpmath.im(z)
+                    tiny = mpmath.mpf("1e-30")
+                    if r[0] == "atan" and abs(re) < tiny and abs(im) > 1:
+                        return True
+                    if r[0] in ("asin", "acos") and abs(im) < tiny and abs(re) > 1:
+                        return True
+            except Exception:  # noqa: BLE001
+                pass
         a = np.asarray(hi.a, dtype=object).reshape(-1)
         b = np.asarray(lo.a, dtype=object).reshape(-1)
         if len(a) != len(b):
